@@ -1,24 +1,39 @@
 """C44 — Banana: real twisted.spread.banana.Banana (encoder + streaming decoder) vs the Lean model, and
 the property oracle (round trip for every segmentation, refusals) evaluated on the real code."""
+import importlib
 import struct
 import zlib
 
 from twisted.internet.testing import StringTransport
 from twisted.spread import banana
-from twisted.spread.banana import Banana, BananaError
+
+# `banana` is re-imported (importlib.reload) before every `mod` case so that the module-level shared instance `_i` starts
+# from the state the module gives it; classes are therefore always looked up through the module (banana.Banana, …).
 
 HEADLINE = "TwistedProps.C44.decode_encode"
 RULE = ("rt: random nested structures (depth <= 6) of boundary/random integers, float bit patterns (NaN payloads, inf, -0.0), "
         "byte strings (empty, vocabulary words, high-bit bytes, lengths at 127/128, 16383/16384, SIZE_LIMIT+-1), lists/tuples, "
         "unsupported objects; dialect pb/none; prefixLimit 64 and small values; the real encoding cut into random deliveries "
         "(whole, byte-wise, random cuts, with and without empty deliveries). dec: mutated/recipe streams (over-long prefix, "
-        "oversized LIST/STRING length, unknown type byte, VOCAB, truncated items). distinct = (op, dialect, prefixLimit class, "
-        "set of node kinds, depth, delivery shape, outcome)")
+        "oversized LIST/STRING length, unknown type byte, VOCAB, truncated items). sess (about a fifth of the cases): a HISTORY on "
+        "two connected Bananas A and B (same dialect / prefixLimit), each both sending and receiving: sendEncoded of legal values, of "
+        "values refused at the top level, and of values refused PART-WAY through a structure (out-of-range int, oversized bytes / "
+        "list, unsupported object nested 1-5 levels deep after earlier elements), from either side, interleaved with deliveries of "
+        "0 / few / all pending bytes in either direction, final flush; optionally B answers every expression by sendEncoded from "
+        "inside expressionReceived (re-entrant from dataReceived). mod: a history on the module-level helpers banana.encode / "
+        "banana.decode (one shared instance, module re-imported per case): encode of legal / refused values, decode of raw bytes "
+        "(truncated, refused inside open lists, several expressions, junk), decode(encode(v)). distinct = (op, dialect, prefixLimit "
+        "class, set of node kinds, depth, delivery shape, outcome); for sess/mod (dialect, limit class, echo, pattern of step kinds "
+        "v/n/t = accepted / refused nested / refused at top, delivery kinds, outcomes)")
 ASSUMES = [
     "prefixLimit >= 3 for the round-trip half (SIZE_LIMIT needs 3 base-128 digits; the default is 64); smaller limits are tied to the model but carry no oracle expectation",
     "struct.pack('!d')/unpack('!d') is a bijection between Python floats and 8-byte strings (bit patterns incl. NaN payloads are checked on every run)",
     "dialect already negotiated (currentDialect is b'pb' or b'none'); negotiation is not part of the property",
     "feeding stops at the first exception escaping dataReceived (the transport drops the connection)",
+    "histories (sess): both Bananas of a pair use the same dialect and prefix limit; B's echoing expressionReceived swallows a "
+    "BananaError of its own sendEncoded (never happens: everything the decoder delivers is within the limits — decoded_within_limits, history_echo)",
+    "banana.encode / banana.decode: the shared instance is the one the module creates on import (dialect none, prefix limit 64); "
+    "the model is that of the repaired decode (finally: buffer AND listStack reset)",
 ]
 TRUSTED = ["zlib.adler32 (long byte strings are compared as length+adler32 on both sides)",
            "harness/py2lean.py (translator: spread/banana.py int2b128 and b1282int are regenerated into lean/Generated/Banana.lean on "
@@ -32,7 +47,18 @@ MANIFEST = {
             "(segmentation-independence theorem for the dataReceived loop + batch round-trip by induction over the expression); "
             "encode refuses exactly the out-of-limit values; over-long prefixes and oversized LIST/STRING lengths raise BananaError. "
             "int2b128 / b1282int are regenerated from banana.py by the translator on every run and proved equal to the model's "
-            "(gen_int2b128, gen_b1282int). Model tied to banana.py by differential runs of encode / decode / round-trip.",
+            "(gen_int2b128, gen_b1282int). Histories: _encode is also transcribed with the fragments it has written when it raises "
+            "(encodeP, proved to agree with encode); sendEncoded of a refused value leaves the transport and everything else "
+            "unchanged (send_refused_leaves_no_trace); for ANY history on two connected Bananas — sendEncoded of accepted values, "
+            "values refused at the top or part-way through a structure, from either side, deliveries of any sizes in either "
+            "direction, with or without B answering from inside expressionReceived — no decoder ever raises, each side has at any "
+            "moment received a prefix of what its peer's sendEncoded accepted (history_safe), and after the final flush exactly "
+            "those values, list-ified, in order, both decoders back in their initial state (history_roundtrip; "
+            "decode_encode_many: several expressions in one stream, any cutting); with B echoing, what B sends is an interleaving "
+            "of its own accepted values and of everything it received, no echo is ever refused (history_echo). Whatever the stream, "
+            "the decoder never delivers a value outside the limits (decoded_within_limits). "
+            "banana.decode(banana.encode(v)) == v after any history of the module-level helpers (mod_roundtrip_after_history). "
+            "Model tied to banana.py by differential runs of encode / decode / round-trip / sess / mod histories.",
     "note": "trusts Lean kernel, the hand-written model of banana.py (differentially tied), struct's IEEE-754 packing",
     "technique": "Lean 4 proof (stream/batch equivalence of the decoder loop + structural induction) + differential tie + "
                  "translator-regenerated kernel (int2b128, b1282int) proved equal to the model",
@@ -170,7 +196,7 @@ def kinds(e, acc=None, depth=0):
 # the real code
 
 def _proto(d, lim):
-    p = Banana()
+    p = banana.Banana()
     t = StringTransport()
     p.makeConnection(t)           # connectionMade: prefix limit, currentDialect = None (client: sends nothing)
     p.setPrefixLimit(lim)
@@ -182,11 +208,15 @@ def _encode(d, lim, value):
     p, t = _proto(d, lim)
     try:
         p.sendEncoded(value)
-    except BananaError:
+    except banana.BananaError:
         if t.value():
             return "partial-write"
         return None
     return t.value()
+
+
+def DECODE_ERRORS():
+    return (banana.BananaError, NotImplementedError, KeyError, AssertionError)
 
 
 def _decode(d, lim, chunks):
@@ -197,7 +227,7 @@ def _decode(d, lim, chunks):
     for ch in chunks:
         try:
             p.dataReceived(ch)
-        except (BananaError, NotImplementedError, KeyError, AssertionError) as ex:
+        except DECODE_ERRORS() as ex:
             err = type(ex).__name__
             break
     return "exprs=" + "/".join(show_py(v) for v in got) + "|err=" + err
@@ -213,7 +243,90 @@ def cut(bs, sizes):
     return out
 
 
+def _run_sess(c):
+    """two connected Bananas A and B (same dialect / prefix limit), each sending and receiving; every byte a side writes
+    stays pending until a `d` step (or the final flush) hands it to the peer's dataReceived"""
+    d, lim, echo = c["d"], c["lim"], c["echo"]
+    A, tA = _proto(d, lim)
+    B, tB = _proto(d, lim)
+    proto = {"A": A, "B": B}
+    tr = {"A": tA, "B": tB}
+    got = {"A": [], "B": []}
+    err = {"A": "-", "B": "-"}           # exception that escaped that side's dataReceived
+    done = {"A": 0, "B": 0}              # bytes of that side's transport already delivered
+    A.expressionReceived = got["A"].append
+
+    def recvB(x):
+        got["B"].append(x)
+        if echo:                         # answer from inside dataReceived, as pb does
+            try:
+                B.sendEncoded(x)
+            except banana.BananaError:
+                pass
+    B.expressionReceived = recvB
+
+    def deliver(side, n):
+        dst = "B" if side == "A" else "A"
+        if err[dst] != "-":
+            return 0
+        data = tr[side].value()[done[side]:done[side] + n]
+        done[side] += len(data)
+        before = len(got[dst])
+        try:
+            proto[dst].dataReceived(data)
+        except DECODE_ERRORS() as ex:
+            err[dst] = type(ex).__name__
+        return len(got[dst]) - before
+
+    outs = []
+    for st in c["steps"]:
+        if st[0] == "s":
+            side = st[1]
+            before = len(tr[side].value())
+            try:
+                proto[side].sendEncoded(to_py(st[2]))
+            except banana.BananaError:
+                outs.append("!BananaError" if len(tr[side].value()) == before else "!BananaError+partial-write")
+            else:
+                outs.append("ok=" + show_bytes(tr[side].value()[before:]))
+        else:
+            outs.append("r%d" % deliver(st[1], st[2]))
+    for side in "AB":
+        if len(tr[side].value()) > done[side]:
+            deliver(side, len(tr[side].value()) - done[side])
+    return (";".join(outs) + "|B<exprs=" + "/".join(show_py(v) for v in got["B"]) + ",err=" + err["B"]
+            + "|A<exprs=" + "/".join(show_py(v) for v in got["A"]) + ",err=" + err["A"])
+
+
+def _mod_decode(data):
+    try:
+        return "v=" + show_py(banana.decode(data))
+    except DECODE_ERRORS() + (IndexError,) as ex:
+        return "!" + type(ex).__name__
+
+
+def _run_mod(c):
+    """banana.encode / banana.decode: ONE shared instance behind them, (re)created by importing the module"""
+    importlib.reload(banana)
+    outs = []
+    for st in c["steps"]:
+        if st[0] == "x":
+            outs.append(_mod_decode(bytes.fromhex(st[1])))
+            continue
+        try:
+            b = banana.encode(to_py(st[1]))
+        except banana.BananaError:
+            outs.append("!BananaError")
+            continue
+        outs.append("ok=" + show_bytes(b) if st[0] == "e" else _mod_decode(b))
+    return ";".join(outs)
+
+
 def run_impl(c):
+    if c["op"] == "sess":
+        return _run_sess(c)
+    if c["op"] == "mod":
+        return _run_mod(c)
     d, lim = c["d"], c["lim"]
     if c["op"] == "enc":
         b = _encode(d, lim, to_py(c["e"]))
@@ -229,6 +342,11 @@ def run_impl(c):
 
 
 def model_line(c):
+    if c["op"] == "sess":
+        steps = [f"s{st[1]}:{wire(st[2])}" if st[0] == "s" else f"d{st[1]}:{st[2]}" for st in c["steps"]]
+        return f"sess {c['d']} {c['lim']} {c['echo']} " + (";".join(steps) or ".")
+    if c["op"] == "mod":
+        return "mod " + ";".join(f"x:{st[1] or '-'}" if st[0] == "x" else f"{st[0]}:{wire(st[1])}" for st in c["steps"])
     if c["op"] == "enc":
         return f"enc {c['d']} {c['lim']} {wire(c['e'])}"
     if c["op"] == "dec":
@@ -245,10 +363,118 @@ def _has_empty_delivery(c):
     return 0 in c.get("sizes", [])
 
 
-def oracle(c, out):
+def _is_merge(z, x, y):
+    """is z an interleaving of x and y (each keeping its own order)?"""
+    if len(z) != len(x) + len(y):
+        return False
+    reach = {(0, 0)}
+    for k, item in enumerate(z):
+        nxt = set()
+        for (i, j) in reach:
+            if i < len(x) and x[i] == item:
+                nxt.add((i + 1, j))
+            if j < len(y) and y[j] == item:
+                nxt.add((i, j + 1))
+        reach = nxt
+        if not reach:
+            return False
+    return True
+
+
+def _delivered_out_of_limit(out, lim):
+    """first token of a decoded-expressions text (`exprs=…|err=…`) that denotes a value outside the limits, else None"""
+    body = out.split("exprs=", 1)[-1].rsplit("|err=", 1)[0]
+    for tok in body.replace("/", ",").split(","):
+        if tok[:1] == "i" and not (-(2 ** (7 * lim)) + 1 <= int(tok[1:]) <= 2 ** (7 * lim) - 1):
+            return tok
+        if tok[:1] == "L" and int(tok[1:]) > SIZE_LIMIT:
+            return tok
+        if tok[:2] == "b~" and int(tok[2:].split(".")[0]) > SIZE_LIMIT:
+            return tok
+    return None
+
+
+def _send_verdict(e, lim, token):
+    """the refusal half of the property for one sendEncoded / banana.encode call"""
+    ok = in_limits(e, lim)
+    if "partial-write" in token:
+        return {"key": "partial-write", "detail": "a refused value left bytes on the transport"}
+    if not ok and not token.startswith("!BananaError"):
+        return {"key": "encode-accepts-out-of-limit", "detail": f"{wire(e)[:200]} lim={lim}: {token[:200]}"}
+    if ok and token.startswith("!"):
+        return {"key": "encode-refuses-in-limit", "detail": f"{wire(e)[:200]} lim={lim}: {token[:100]}"}
+    return None
+
+
+def _oracle_sess(c, out):
+    """every value within the limits that either side sends arrives at the peer as the equal structure, in order, whatever
+    was sent, refused or delivered before on the same two Bananas; out-of-limit values are refused and leave no trace"""
     lim = c["lim"]
+    try:
+        steps_txt, b_txt, a_txt = out.split("|")
+        toks = steps_txt.split(";") if steps_txt else []
+        assert len(toks) == len(c["steps"]) and b_txt.startswith("B<exprs=") and a_txt.startswith("A<exprs=")
+    except (ValueError, AssertionError):
+        return {"key": "unexpected-exception", "detail": out[:300]}
+    sent = {"A": [], "B": []}
+    for st, tok in zip(c["steps"], toks):
+        if st[0] != "s":
+            continue
+        v = _send_verdict(st[2], lim, tok)
+        if v:
+            return v
+        if in_limits(st[2], lim):
+            sent[st[1]].append(expected_text(st[2]))
+    if lim < 3:
+        return None
+    got, err = {}, {}
+    for name, txt in (("B", b_txt), ("A", a_txt)):
+        body, err[name] = txt[len("B<exprs="):].rsplit(",err=", 1)
+        got[name] = body.split("/") if body else []
+    hist = ";".join((f"s{st[1]}:{wire(st[2])[:60]}" if st[0] == "s" else f"d{st[1]}:{st[2]}") for st in c["steps"])[:500]
+    for name, peer in (("B", "A"), ("A", "B")):
+        if err[name] != "-":
+            key = "empty-delivery-assert" if err[name] == "AssertionError" else "roundtrip-after-history"
+            return {"key": key, "detail": f"dialect={c['d']} lim={lim} echo={c['echo']} [{hist}]: {name}.dataReceived raised {err[name]}"}
+    if got["B"] != sent["A"]:
+        return {"key": "roundtrip-after-history", "detail": f"dialect={c['d']} lim={lim} echo={c['echo']} [{hist}]: B received "
+                f"{'/'.join(got['B'])[:300]} but A sent {'/'.join(sent['A'])[:300]}"}
+    want_a_ok = _is_merge(got["A"], sent["B"], got["B"]) if c["echo"] else got["A"] == sent["B"]
+    if not want_a_ok:
+        return {"key": "roundtrip-after-history", "detail": f"dialect={c['d']} lim={lim} echo={c['echo']} [{hist}]: A received "
+                f"{'/'.join(got['A'])[:300]} but B sent {'/'.join(sent['B'])[:300]}"
+                + (f" and echoed {'/'.join(got['B'])[:200]}" if c["echo"] else "")}
+    return None
+
+
+def _oracle_mod(c, out):
+    """banana.encode / banana.decode: refusals, and decode(encode(v)) == v whatever the helpers were given before"""
+    toks = out.split(";")
+    if len(toks) != len(c["steps"]):
+        return {"key": "unexpected-exception", "detail": out[:300]}
+    hist = ";".join(f"{st[0]}:{st[1][:40] if st[0] == 'x' else wire(st[1])[:60]}" for st in c["steps"])[:500]
+    for st, tok in zip(c["steps"], toks):
+        if st[0] == "x":
+            continue
+        if st[0] == "e" or not in_limits(st[1], 64):
+            v = _send_verdict(st[1], 64, tok if tok.startswith(("ok=", "!BananaError")) else "ok=?")
+            if v:
+                return v
+            continue
+        if tok != "v=" + expected_text(st[1]):
+            return {"key": "roundtrip-after-history", "detail": f"banana.decode(banana.encode({wire(st[1])[:200]})) gave {tok[:300]} "
+                    f"in the history [{hist}]"}
+    return None
+
+
+def oracle(c, out):
     if out.startswith("!raised") and not (c["op"] == "enc" and out == "!raised BananaError"):
         return {"key": "unexpected-exception", "detail": out}
+    if c["op"] == "sess":
+        return _oracle_sess(c, out)
+    if c["op"] == "mod":
+        return _oracle_mod(c, out)
+    lim = c["lim"]
     if c["op"] in ("enc", "rt"):
         ok = in_limits(c["e"], lim)
         refused = out in ("!raised BananaError", "enc=!raised BananaError")
@@ -269,6 +495,10 @@ def oracle(c, out):
                 key = "roundtrip"
             return {"key": key, "detail": f"dialect={c['d']} lim={lim} sizes={c['sizes'][:20]}: decoded {got[:300]} expected {want[:300]}"}
         return None
+    # whatever the stream: nothing outside the limits is ever delivered (an over-long prefix / oversized length is refused)
+    bad = _delivered_out_of_limit(out, lim)
+    if bad:
+        return {"key": "decode-delivers-out-of-limit", "detail": f"lim={lim}: delivered {bad[:120]}"}
     # dec with a recipe: valid items then an over-long prefix / oversized length must be refused
     exp = c.get("expect")
     if exp is not None:
@@ -452,6 +682,126 @@ def _rt(rng, tier, e=None, d=None, lim=None, empties=None):
     return c
 
 
+def _valid(rng, tier, lim, depth, big=False):
+    while True:
+        e = _expr(rng, tier, lim, depth, big=big)
+        if in_limits(e, lim):
+            return e
+
+
+def _bad_leaf(rng, lim):
+    """a value _encode must refuse: integer beyond the range, byte string / list beyond SIZE_LIMIT, unsupported type"""
+    B = 2 ** (7 * lim)
+    r = rng.random()
+    if r < 0.55:
+        return _i(rng.choice([1, -1]) * rng.choice([B, B, B + 1, 2 * B, B * 128]))
+    if r < 0.62:
+        return ["Z", SIZE_LIMIT + rng.choice([1, 1, 2, 200]), "%02x" % rng.choice([0x41, 0x80])]
+    if r < 0.69:
+        return ["R", SIZE_LIMIT + rng.choice([1, 1, 5]), _i(rng.choice([0, -1]))]
+    return ["o"]
+
+
+def _nested_bad(rng, tier, lim):
+    """an out-of-limit value INSIDE a structure: _encode has already written list headers / earlier elements when it refuses"""
+    e = _bad_leaf(rng, lim)
+    for _ in range(rng.choice([1, 1, 1, 2, 2, 3, 5])):
+        pre = [_valid(rng, tier, lim, rng.choice([0, 0, 1, 2])) for _ in range(rng.choice([0, 1, 1, 2, 3]))]
+        post = [_valid(rng, tier, lim, rng.choice([0, 0, 1])) for _ in range(rng.choice([0, 0, 1, 2]))]
+        e = [rng.choice("LLT"), pre + [e] + post]
+    return e
+
+
+def _send_value(rng, tier, lim):
+    r = rng.random()
+    if r < 0.38:
+        return _nested_bad(rng, tier, lim)
+    if r < 0.45:
+        return _bad_leaf(rng, lim)
+    if r < 0.48:
+        return _valid(rng, tier, lim, 1, big=True)
+    return _valid(rng, tier, lim, rng.choice([0, 1, 1, 2, 2, 3, 4]))
+
+
+def _sess(rng, tier):
+    """a history on two connected Bananas: sends (legal, refused at top level, refused part-way through a structure) from
+    either side, interleaved with partial / empty / whole deliveries; optionally B echoes from inside dataReceived"""
+    d, lim = rng.choice(["pb", "none"]), rng.choice([64, 64, 64, 64, 64, 10, 5, 3, 3, 2, 1])
+    steps = []
+    pa = rng.choice([1.0, 1.0, 0.7, 0.5])
+    for _ in range(rng.choice([2, 2, 3, 3, 4, 5, 7])):
+        steps.append(["s", "A" if rng.random() < pa else "B", _send_value(rng, tier, lim)])
+        for _ in range(rng.choice([0, 0, 0, 1, 1, 2, 3])):
+            steps.append(["d", rng.choice("AAB") if pa < 1 else "A", rng.choice([0, 1, 1, 2, 3, 5, 8, 13, 50, 10**6])])
+    return {"op": "sess", "d": d, "lim": lim, "echo": 1 if rng.random() < 0.3 else 0, "steps": steps}
+
+
+def _raw(rng, tier):
+    """bytes for banana.decode: a valid stream cut short, one with an oversized prefix inside open lists, two expressions, junk"""
+    good = _encode("none", 64, to_py(_valid(rng, tier, 64, rng.choice([1, 2, 3]))))
+    r = rng.random()
+    if r < 0.45 and len(good) > 1:
+        return good[:rng.randrange(1, len(good))]
+    if r < 0.6:
+        return _digits(rng.randint(1, 4)) + b"\x80" + _encode("none", 64, 7) * rng.randint(0, 1) + b"\x01" * 65 + b"\x81"
+    if r < 0.7:
+        return _digits(rng.randint(2, 5)) + b"\x80" + good
+    if r < 0.8:
+        return good + _encode("none", 64, to_py(_valid(rng, tier, 64, 1)))
+    if r < 0.9:
+        return good
+    return bytes(rng.choice([0, 1, 2, 0x80, 0x81, 0x82, 0x87, 0x88, 0x41]) for _ in range(rng.randint(0, 6)))
+
+
+def _mod(rng, tier):
+    """a history on the module-level helpers (they share one Banana): encode of legal / refused values, decode of raw bytes
+    (truncated, refused, several expressions), decode(encode(v))"""
+    steps = []
+    for _ in range(rng.choice([2, 3, 3, 4, 5, 6])):
+        r = rng.random()
+        if r < 0.3:
+            steps.append(["e", _send_value(rng, tier, 64)])
+        elif r < 0.55:
+            steps.append(["x", _raw(rng, tier).hex()])
+        else:
+            steps.append(["r", _send_value(rng, tier, 64) if rng.random() < 0.15 else _valid(rng, tier, 64, rng.choice([0, 1, 2, 3]))])
+    if steps[-1][0] != "r":
+        steps.append(["r", _valid(rng, tier, 64, rng.choice([0, 1, 2]))])
+    return {"op": "mod", "steps": steps}
+
+
+def _history_corpus():
+    L = lambda *xs: ["L", list(xs)]
+    T = lambda *xs: ["T", list(xs)]
+    b = lambda x: ["b", x.hex()]
+    B = 2**448
+    follow = [L(_i(1), L(_f(0x4004000000000000), b(b"three")), b(b"list"), _i(-4)), _i(7), b(b"tail"), L(L(), L(L(_f(0x8000000000000000))))]
+    refused = [L(_i(1), b(b"x"), _i(B)), L(L(b(b"copy"), L(_i(-B)))), L(_i(3), L(["Z", SIZE_LIMIT + 1, "61"])),
+               L(_f(0x3FF8000000000000), T(["o"])), T(_i(5), ["R", SIZE_LIMIT + 1, _i(0)], _i(6))]
+    out = []
+    for k, bad in enumerate(refused):
+        steps = [["s", "A", bad]] + [["s", "A", e] for e in follow]
+        out.append({"op": "sess", "d": "pb" if k % 2 else "none", "lim": 64, "echo": 0, "steps": steps})
+    # refusals between legal sends, both directions, partial deliveries in between, B echoing
+    out.append({"op": "sess", "d": "pb", "lim": 64, "echo": 1, "steps": [
+        ["s", "A", follow[0]], ["d", "A", 3], ["s", "A", refused[0]], ["d", "A", 0], ["s", "B", refused[1]], ["s", "B", follow[1]],
+        ["d", "A", 5], ["s", "A", follow[2]], ["d", "B", 2], ["s", "B", refused[3]], ["s", "A", refused[2]], ["s", "A", follow[3]]]})
+    out.append({"op": "sess", "d": "none", "lim": 3, "echo": 0, "steps": [
+        ["s", "A", L(_i(2**21 - 1), _i(2**21))], ["s", "A", L(_i(-(2**21) + 1))], ["s", "B", L(_i(1), L(_i(-(2**21))))], ["s", "B", _i(0)]]})
+    out.append({"op": "sess", "d": "none", "lim": 64, "echo": 0, "steps": [["s", "A", _i(B)], ["s", "A", ["o"]], ["s", "A", _i(1)]]})
+    out.append({"op": "sess", "d": "none", "lim": 64, "echo": 1, "steps": []})
+    # the shared instance behind banana.encode / banana.decode
+    out.append({"op": "mod", "steps": [["e", L(_i(1), L(_i(2), _i(B)))]] + [["r", e] for e in follow]})
+    out.append({"op": "mod", "steps": [["e", refused[2]], ["e", follow[0]], ["e", refused[3]], ["r", follow[3]]]})
+    # witness of the defect repaired by `fix: banana.decode() leaves no open lists behind …`: a truncated list, then a round trip
+    out.append({"op": "mod", "steps": [["x", "02800181"], ["r", L(_i(1), _i(2))]]})
+    out.append({"op": "mod", "steps": [["x", "0280"], ["r", _i(5)], ["r", _i(6)], ["r", L()]]})
+    out.append({"op": "mod", "steps": [["x", "0380" + "01" * 65 + "81"], ["r", L(b(b"a"))]]})
+    out.append({"op": "mod", "steps": [["x", "0582" + "6162"], ["x", ""], ["r", b(b"cd")]]})
+    out.append({"op": "mod", "steps": [["x", "01810281"], ["x", "0187"], ["r", T(_i(1))]]})
+    return out
+
+
 def corpus():
     L = lambda *xs: ["L", list(xs)]
     hello = ["b", b"hello".hex()]
@@ -488,16 +838,20 @@ def corpus():
         out.append({"op": "rt", "d": "none", "lim": 64, "e": _i(n), "sizes": [1]})
     for bits in FLOATS[:8]:
         out.append({"op": "rt", "d": "pb", "lim": 64, "e": L(_f(bits)), "sizes": [4, 0, 3] if bits == 0 else [4, 3]})
-    return out
+    return out + _history_corpus()
 
 
 def generate(rng, tier):
-    n = 2500 if tier == "quick" else 60000
+    n = 2500 if tier == "quick" else 45000
     for _ in range(n):
         r = rng.random()
-        if r < 0.62:
+        if r < 0.22:
+            yield _sess(rng, tier)
+        elif r < 0.30:
+            yield _mod(rng, tier)
+        elif r < 0.66:
             yield _rt(rng, tier)
-        elif r < 0.70:
+        elif r < 0.72:
             lim = _lim(rng)
             yield {"op": "enc", "d": rng.choice(["pb", "none"]), "lim": lim, "e": _expr(rng, tier, lim, 3)}
         elif r < 0.85:
@@ -526,11 +880,42 @@ def search(rng, tier, disagreeing):
             for i in range(len(s) + 1):
                 yield dict(base, chunks=[x.hex() for x in (s[:i], s[i:]) if x])
                 yield dict(base, chunks=[s[:i].hex(), "", s[i:].hex()])
-    for _ in range(2000 if tier == "quick" else 20000):
-        yield _rt(rng, tier, empties=rng.random() < 0.5)
+    for c in list(disagreeing)[:5]:
+        if c["op"] in ("sess", "mod"):          # every sub-history (one step left out), every single-step prefix
+            for i in range(len(c["steps"])):
+                yield dict(c, steps=c["steps"][:i] + c["steps"][i + 1:])
+                yield dict(c, steps=c["steps"][:i + 1])
+    for k in range(2000 if tier == "quick" else 20000):
+        yield _rt(rng, tier, empties=rng.random() < 0.5) if k % 3 else _sess(rng, tier) if k % 2 else _mod(rng, tier)
+
+
+def _shrink_expr(e):
+    if e[0] in "LT":
+        for x in e[1]:
+            yield x
+        for i in range(len(e[1])):
+            yield [e[0], e[1][:i] + e[1][i + 1:]]
+        for i, x in enumerate(e[1]):
+            for y in _shrink_expr(x):
+                yield [e[0], e[1][:i] + [y] + e[1][i + 1:]]
+    elif e[0] == "b" and len(e[1]) > 2:
+        yield ["b", e[1][: len(e[1]) // 4 * 2]]
+    elif e[0] == "i" and abs(int(e[1])) > 1 and -(2**31) <= int(e[1]) < 2**31:
+        yield ["i", 1]
 
 
 def shrink(c):
+    if c["op"] in ("sess", "mod"):
+        st = c["steps"]
+        for i in range(len(st)):
+            yield dict(c, steps=st[:i] + st[i + 1:])
+        if c["op"] == "sess" and c["echo"]:
+            yield dict(c, echo=0)
+        for i, x in enumerate(st):
+            if x[0] in "ser":
+                for y in _shrink_expr(x[-1]):
+                    yield dict(c, steps=st[:i] + [x[:-1] + [y]] + st[i + 1:])
+        return
     if c["op"] == "rt":
         s = c["sizes"]
         for i in range(len(s)):
@@ -566,8 +951,23 @@ def _shape(c):
     return ("E" if 0 in s else "") + ("1" if not s else "b" if set(s) == {1} else "n")
 
 
+def _send_kind(e, lim):
+    if in_limits(e, lim):
+        return "v"
+    return "n" if e[0] in "LT" and len(e[1]) <= SIZE_LIMIT else "t"     # refused part-way (nested) / at the top
+
+
 def tag(c, out):
+    if c["op"] == "mod":
+        pat = "".join(st[0] if st[0] == "x" else st[0] + _send_kind(st[1], 64) for st in c["steps"])[:12]
+        res = "".join("v" if t.startswith(("v=", "ok=")) else t[1:3] for t in out.split(";"))[:16]
+        return f"mod:{pat}:{res}"
     limc = "64" if c["lim"] == 64 else "<3" if c["lim"] < 3 else "s"
+    if c["op"] == "sess":
+        pat = "".join((st[1].lower() if st[1] == "B" else "") + _send_kind(st[2], c["lim"]) if st[0] == "s" else
+                      "." if st[2] else "0" for st in c["steps"])[:10]
+        errs = "".join(x.rsplit(",err=", 1)[-1][:3] for x in out.split("|")[1:])
+        return f"sess:{c['d']}:{limc}:e{c['echo']}:{pat}:{errs}"
     if c["op"] == "dec":
         err = out.split("err=")[-1]
         return f"dec:{c['d']}:{limc}:{c.get('why', 'mut')[:12]}:{_shape(c)}:{err}:{min(out.count('/') + (0 if 'exprs=|' in out else 1), 3)}"
